@@ -228,8 +228,15 @@ func VerifC06_E2_file_roundtrip() {
 	if err != nil {
 		return
 	}
-	prior := sym.Choice("prior_state", 6)
+	prior := sym.Choice("prior_state", 7)
 	switch prior {
+	case 6: // other bytes AND the other permission (writing over an existing file keeps its mode, so recreate it)
+		must(os.Remove(p))
+		if flag("prior_file_executable") {
+			must(os.WriteFile(p, []byte("zz"), 0755))
+		} else {
+			must(os.WriteFile(p, []byte("zz"), 0644))
+		}
 	case 1:
 		must(os.Remove(p))
 	case 2:
